@@ -70,6 +70,30 @@ fn gen_stun_mi(rng: &mut Rng) -> Vec<u8> {
     assert!(verify_message_integrity(&v, &MI_KEY), "genuine MESSAGE-INTEGRITY verifies");
     v
 }
+/// hand-framed Binding requests whose MESSAGE-INTEGRITY (type 8) declares every interesting length and sits at every
+/// position including the very end of the message (so that fewer than 20 bytes follow its TLV header), optionally
+/// followed only by FINGERPRINT; `ufrag` is the USERNAME prefix (the live agent's own ufrag, or a foreign one)
+pub fn mi_framed(rng: &mut Rng, ufrag: &str) -> Vec<Vec<u8>> {
+    let mut out = vec![];
+    for mi_len in [0u16, 1, 4, 8, 12, 16, 19, 20, 21, 24] {
+        for present in [0usize, 1, 4, mi_len as usize, 20, 24] {       // bytes actually present after the MI header
+            for pos in 0..3 {                                           // MI first / after USERNAME / after USERNAME+PRIORITY
+                for tail in 0..2 {                                      // nothing after it, or a FINGERPRINT
+                    let mut v = vec![0u8, 1, 0, 0, 0x21, 0x12, 0xA4, 0x42]; v.extend(rng.bytes(12));
+                    let user = format!("{ufrag}:peer");
+                    if pos >= 1 { tlv(&mut v, 0x0006, user.as_bytes()); }
+                    if pos >= 2 { tlv(&mut v, 0x0024, &[0, 0, 1, 0]); }
+                    v.extend_from_slice(&[0, 8]); v.extend_from_slice(&mi_len.to_be_bytes()); v.extend(std::iter::repeat(0x5A).take(present));
+                    if pos == 0 { while v.len() % 4 != 0 { v.push(0); } tlv(&mut v, 0x0006, user.as_bytes()); }
+                    if tail == 1 { while v.len() % 4 != 0 { v.push(0); } tlv(&mut v, 0x8028, &[1, 2, 3, 4]); }
+                    let l = (v.len() - 20) as u16; v[2..4].copy_from_slice(&l.to_be_bytes());
+                    out.push(v);
+                }
+            }
+        }
+    }
+    out
+}
 fn call_ufrag(b: &[u8]) -> String {
     let r = rustrtc::verif_hooks::decoders::peer_ufrag_from_binding_request(b); super::mark_alloc();
     match r { None => "ok none".into(), Some(s) => format!("ok some {}", hex(s.as_bytes())) }
@@ -299,6 +323,18 @@ pub fn special(run: &mut Run, rng: &mut Rng, thorough: bool) {
         }
     }
     let live = Live::new();
+    {
+        // MESSAGE-INTEGRITY framing: the direct verifier and the live agent (the verifier runs only for our own ufrag)
+        let own = live.ice.local_parameters().username_fragment;
+        let ts = targets();
+        for ufrag in [own.as_str(), "zzzz"] {
+            for m in mi_framed(rng, ufrag) {
+                super::run_bytes(run, &ts[1], &m, true);
+                run_hpkt(run, &live, &m, true);
+                run_turnpkt(run, &live, &m, true);
+            }
+        }
+    }
     // handle_packet: empty, every 1-byte datagram, valid STUN / DTLS-ish / RTP, mutations
     run_hpkt(run, &live, &[], true);
     for a in 0..=255u8 { run_hpkt(run, &live, &[a], false); }
